@@ -47,6 +47,9 @@ type World struct {
 	phiVisiting map[*ssa.Phi]bool
 	// CanonI: inline simple pure helpers while rendering
 	inlineHelpers bool
+	payloadTab    map[int64]string
+	cur           *pathCtxt // path being enumerated (event callbacks only)
+	pureMemo      map[*ssa.Function]bool
 	inlineEnv     []map[*ssa.Parameter]string
 	// enumPaths records the branch taken at every If as "?T:<cond>" / "?F:<cond>"
 	branchMarkers bool
